@@ -77,4 +77,74 @@ def allIn (cls : List Nat) (s : Text) : Bool := !s.isEmpty && s.all cls.contains
 /-- a bytes / str literal -/
 def lit (s : String) : Text := s.toList.map Char.toNat
 
+/-! ### loops
+
+A Python `while` has no bound; its translation takes a fuel argument and is `diverge` when the fuel
+runs out.  The loop terminates in Python exactly when some amount of fuel suffices, and then every
+larger amount gives the same result (the source-tie theorems are stated for all sufficient fuel). -/
+
+/-- `while c: body` — the body returns (keep looping?, new state); `false` is a `break` -/
+def whileO {σ} : Nat → (σ → Bool) → (σ → Outcome (Bool × σ)) → σ → Outcome σ
+  | 0, _, _, _ => .diverge
+  | fuel + 1, c, b, s =>
+    if c s then (b s).bind (fun r => if r.1 then whileO fuel c b r.2 else .ok r.2) else .ok s
+
+/-- `for x in xs: body` (no break) -/
+def forO {α σ} (f : σ → α → Outcome σ) : List α → σ → Outcome σ
+  | [], s => .ok s
+  | x :: xs, s => (f s x).bind (forO f xs)
+
+/-! ### dictionaries with string keys, in insertion order -/
+
+abbrev SDict (β : Type) := List (Text × β)
+
+/-- `d[k] = v`: replace in place, else append -/
+def dictSet {β} : SDict β → Text → β → SDict β
+  | [], k, v => [(k, v)]
+  | (k', v') :: rest, k, v => if k' == k then (k, v) :: rest else (k', v') :: dictSet rest k v
+
+/-- `d[k]`: KeyError when absent -/
+def dictGet {β} (d : SDict β) (k : Text) : Outcome β :=
+  match d.find? (·.1 == k) with
+  | some kv => .ok kv.2
+  | none => .escape .keyError
+
+/-- iterating a dict yields its keys -/
+def dictKeys {β} (d : SDict β) : List Text := d.map (·.1)
+
+/-! ### strings and bytes -/
+
+def startsWith (s p : Text) : Bool := s.take p.length == p
+
+/-- lexicographic order on code points (what `sorted()` uses for str) -/
+def strLt : Text → Text → Bool
+  | [], [] => false
+  | [], _ :: _ => true
+  | _ :: _, [] => false
+  | a :: as, b :: bs => a < b || (a == b && strLt as bs)
+
+def insertStr (x : Text) : List Text → List Text
+  | [] => [x]
+  | y :: ys => if strLt x y then x :: y :: ys else y :: insertStr x ys
+
+/-- `sorted(list_of_str)` (stable insertion sort; equal strings are indistinguishable) -/
+def sortedStr (l : List Text) : List Text := l.foldr insertStr []
+
+def hexDigitLower (n : Nat) : Nat := if n < 10 then 48 + n else 87 + n
+
+/-- `binascii.b2a_hex` / `hexlify` -/
+def hexlify (b : Bytes) : Bytes := b.flatMap (fun x => [hexDigitLower (x / 16 % 16), hexDigitLower (x % 16)])
+
+/-- `bytes.upper()` -/
+def upperAscii (b : Bytes) : Bytes := b.map (fun c => if 97 ≤ c ∧ c ≤ 122 then c - 32 else c)
+
+/-- `struct.unpack(">B", raw)[0]`: exactly one byte, else struct.error -/
+def unpackB (raw : Bytes) : Outcome Int :=
+  match raw with
+  | [x] => .ok (x : Int)
+  | _ => .escape .structError
+
+/-- `f'{i:0w}'` -/
+def fmtIntW (w : Nat) (i : Int) : Text := fmtInt w i
+
 end Cardutil.Py.Rt
